@@ -422,6 +422,60 @@ impl<MutexType: RawMutex, T: Clone> ChannelReceiveAccess<T>
     }
 }
 
+#[cfg(futures_intrusive_verif)]
+fn verif_node_info(node: &ListNode<RecvWaitQueueEntry>) -> crate::verif::NodeInfo {
+    let (prev, next) = node.verif_links();
+    let (has_waker, waker_data) = crate::verif::waker_data(&node.task);
+    crate::verif::NodeInfo {
+        prev,
+        next,
+        state: match node.state {
+            RecvPollState::Unregistered => 0,
+            RecvPollState::Registered => 1,
+        },
+        has_waker,
+        waker_data,
+        arg: node.state_id.0,
+        ..Default::default()
+    }
+}
+
+#[cfg(futures_intrusive_verif)]
+impl<MutexType: RawMutex, T: Clone> GenericStateBroadcastChannel<MutexType, T> {
+    /// Reports the internal state while holding the internal lock
+    pub fn verif_inspect(
+        &self,
+        visit: &mut dyn FnMut(crate::verif::Visit) -> bool,
+    ) {
+        use crate::verif::{PrimInfo, Visit};
+        let state = self.inner.lock();
+        let (head, tail) = state.waiters.verif_ends();
+        visit(Visit::Prim(PrimInfo {
+            head,
+            tail,
+            flag: state.is_closed,
+            count: state.state_id.0,
+            ..Default::default()
+        }));
+        crate::verif::walk_list(&state.waiters, 0, visit, &verif_node_info);
+        visit(Visit::Done);
+    }
+}
+
+#[cfg(futures_intrusive_verif)]
+impl<'a, MutexType, T: Clone> StateReceiveFuture<'a, MutexType, T> {
+    /// Address of the embedded wait node
+    pub fn verif_node_addr(&self) -> usize {
+        &self.wait_node as *const _ as usize
+    }
+
+    /// Content of the embedded wait node. Must only be called while no other
+    /// thread can access the node (e.g. from within `verif_inspect`)
+    pub unsafe fn verif_node_info(&self) -> crate::verif::NodeInfo {
+        verif_node_info(&self.wait_node)
+    }
+}
+
 // Export a non thread-safe version using NoopLock
 
 /// A [`GenericStateBroadcastChannel`] which is not thread-safe.
@@ -651,6 +705,8 @@ mod if_alloc {
                     return;
                 }
                 core::sync::atomic::fence(Ordering::Acquire);
+                #[cfg(futures_intrusive_verif)]
+                crate::verif::point(11);
                 // Close the channel, before last sender gets destroyed
                 // TODO: We could potentially avoid this, if no receiver is left
                 self.inner.channel.close();
@@ -684,6 +740,8 @@ mod if_alloc {
                     return;
                 }
                 core::sync::atomic::fence(Ordering::Acquire);
+                #[cfg(futures_intrusive_verif)]
+                crate::verif::point(12);
                 // Close the channel, before last receiver gets destroyed
                 // TODO: We could potentially avoid this, if no sender is left
                 self.inner.channel.close();
@@ -770,6 +828,48 @@ mod if_alloc {
                 state_id: StateId,
             ) -> Option<(StateId, T)> {
                 self.inner.channel.try_receive(state_id)
+            }
+        }
+
+        #[cfg(futures_intrusive_verif)]
+        impl<MutexType, T> StateReceiveFuture<MutexType, T> {
+            /// Address of the embedded wait node
+            pub fn verif_node_addr(&self) -> usize {
+                &self.wait_node as *const _ as usize
+            }
+
+            /// Content of the embedded wait node. Must only be called while no
+            /// other thread can access the node
+            pub unsafe fn verif_node_info(&self) -> crate::verif::NodeInfo {
+                verif_node_info(&self.wait_node)
+            }
+        }
+
+        #[cfg(futures_intrusive_verif)]
+        impl<MutexType, T> GenericStateSender<MutexType, T>
+        where
+            MutexType: RawMutex,
+            T: Clone + 'static,
+        {
+            /// The channel behind this handle
+            pub fn verif_channel(
+                &self,
+            ) -> &GenericStateBroadcastChannel<MutexType, T> {
+                &self.inner.channel
+            }
+        }
+
+        #[cfg(futures_intrusive_verif)]
+        impl<MutexType, T> GenericStateReceiver<MutexType, T>
+        where
+            MutexType: RawMutex,
+            T: Clone + 'static,
+        {
+            /// The channel behind this handle
+            pub fn verif_channel(
+                &self,
+            ) -> &GenericStateBroadcastChannel<MutexType, T> {
+                &self.inner.channel
             }
         }
 
